@@ -167,6 +167,13 @@ theorem paretoFront_orientation_neg (o : α) (d : List (List (Option α))) :
 
 example : paretoFront (1 : Rat) [[some 1, some 2], [some 2, some 3], [none, some 1]] = [1, 0, 1] := by
   decide +kernel
+example : ∃ i, i < ([[some 1, some 2], [some 1, some 2], [some 0, some 3]] : List (List (Option Rat))).length ∧
+    (paretoFront (-1 : Rat) [[some 1, some 2], [some 1, some 2], [some 0, some 3]])[i]? = some 0 :=
+  paretoFront_exists_nondominated (α := Rat) (-1) [[some 1, some 2], [some 1, some 2], [some 0, some 3]] 2
+    (by decide) (by simp) (by simp) (by simp)
+example : paretoFront (-(1 : Rat)) [[some 1, some 2], [some 2, some 3]]
+    = paretoFront (1 : Rat) (negRows [[some 1, some 2], [some 2, some 3]]) :=
+  paretoFront_orientation_neg (1 : Rat) _
 
 /-! ### min–max normalisation of the density profile -/
 
@@ -259,6 +266,43 @@ theorem normal_scores_argument_in_unit_interval (m : RankMethod) (cst : α) (h0 
   have bx := rank_bounds m xs hx
   exact scoreArg_mem_unit xs.length hn cst h0 h1 (by linarith [bx.1]) (by linarith [bx.2])
 
+/-- `sorted=True`: ranks are `0..n-1` and the plotting positions handed to `ppf` are strictly increasing
+inside (0, 1), so the scores are strictly increasing along the (sorted) data -/
+theorem standardNormalSorted_increasing (cst : α) (h0 : 0 ≤ cst) (h1 : cst ≤ 1 / 2) (x : List α) :
+    ∃ u ranks, standardNormalSorted cst (x.map some) = .ok (u, ranks) ∧
+      ranks = (List.range x.length).map (fun i => ((i : Nat) : α)) ∧ u.length = x.length ∧
+      u.Pairwise (· < ·) ∧ ∀ p ∈ u, 0 < p ∧ p < 1 := by
+  have hnan : (x.map some).any Option.isNone = false := by simp [List.any_eq_false]
+  refine ⟨((List.range x.length).map (fun i => ((i : Nat) : α))).map (scoreArg x.length cst),
+    (List.range x.length).map (fun i => ((i : Nat) : α)), ?_, rfl, ?_, ?_, ?_⟩
+  · unfold standardNormalSorted
+    simp only [hnan, Bool.false_eq_true, if_false, List.length_map]
+  · simp
+  · rcases Nat.eq_zero_or_pos x.length with h | hn
+    · simp [h]
+    rw [List.pairwise_map, List.pairwise_map]
+    refine List.Pairwise.imp ?_ List.pairwise_lt_range
+    intro a b hab
+    exact scoreArg_lt x.length hn cst h1 (by exact_mod_cast hab)
+  · intro p hp
+    simp only [List.mem_map, List.mem_range, exists_exists_and_eq_and] at hp
+    obtain ⟨i, hi, rfl⟩ := hp
+    have hn : 0 < x.length := by omega
+    apply scoreArg_mem_unit x.length hn cst h0 h1 (Nat.cast_nonneg i)
+    have : ((i + 1 : Nat) : α) ≤ (x.length : α) := by exact_mod_cast hi
+    push_cast at this
+    linarith
+
+/-- NaN is rejected in the sorted branch as well -/
+theorem standardNormalSorted_rejects_nan (cst : α) (x : List (Option α)) (h : none ∈ x) :
+    standardNormalSorted cst x = .error .hasNan := by
+  have : x.any Option.isNone = true := List.any_eq_true.mpr ⟨none, h, rfl⟩
+  unfold standardNormalSorted
+  simp [this]
+
+example : standardNormalSorted (1 / 2 : Rat) [some 1, some 5] = .ok ([1 / 4, 3 / 4], [0, 1]) := by decide +kernel
+example : rank .min [(3 : Rat), 1, 3] 3 = 2 ∧ rank .max [(3 : Rat), 1, 3] 3 = 3 ∧ rank .average [(3 : Rat), 1, 3] 3 = 5 / 2 := by
+  decide +kernel
 example : standardNormal .average (0 : Rat) [some 3, some 1, some 3] = .ok ([5 / 8, 1 / 4, 5 / 8], [3 / 2, 0, 3 / 2]) := by
   decide +kernel
 
@@ -360,10 +404,42 @@ theorem lhs_one_point_per_stratum (n : Nat) (hn : 0 < n) (pmin pmax : List α) (
   rw [if_neg (by omega)]
   exact hc
 
-/-- a range with `pmax ≤ pmin` is rejected -/
-theorem lhs_rejects_empty_range (n : Nat) (a b : α) (hab : b ≤ a) (perms : List (List Nat)) (rs : List (List α)) :
-    lhs n [a] [b] perms rs = .error .pmaxLePmin := by
-  simp [lhs, broadcast, hab]
+/-- a scalar / one-element `pmax` is repeated for every parameter -/
+theorem lhs_broadcast (n : Nat) (pmin : List α) (p : α) (perms : List (List Nat)) (rs : List (List α)) :
+    lhs n pmin [p] perms rs = lhs n pmin (List.replicate pmin.length p) perms rs := by
+  unfold lhs
+  simp only []
+  rw [broadcast_singleton, broadcast_eq (List.replicate pmin.length p) pmin.length (by simp)]
+
+/-- any parameter with `pmax ≤ pmin` makes the call fail (lengths agreeing) -/
+theorem lhs_rejects_empty_range (n : Nat) (pmin pmax : List α) (hlen : pmax.length = pmin.length)
+    (i : Nat) (a b : α) (ha : pmin[i]? = some a) (hb : pmax[i]? = some b) (hab : b ≤ a)
+    (perms : List (List Nat)) (rs : List (List α)) :
+    lhs n pmin pmax perms rs = .error .pmaxLePmin := by
+  unfold lhs
+  simp only [broadcast_eq pmax pmin.length hlen, hlen, ne_eq, not_true_eq_false, if_false]
+  rw [if_pos ((empty_range_any pmin pmax).mpr ⟨i, a, b, ha, hb, hab⟩)]
+
+/-- a `pmax` of another length (and not of length 1) is rejected -/
+theorem lhs_rejects_length (n : Nat) (pmin pmax : List α) (h1 : pmax.length ≠ 1) (h : pmax.length ≠ pmin.length)
+    (perms : List (List Nat)) (rs : List (List α)) :
+    lhs n pmin pmax perms rs = .error .pmaxLength := by
+  unfold lhs
+  simp only [broadcast_of_length_ne_one pmax pmin.length h1, ne_eq, h, not_false_eq_true, if_true]
+
+/-- `nsamples = 0` with at least one proper parameter range fails (division by zero in the code) -/
+theorem lhs_rejects_zero_samples (pmin pmax : List α) (perms : List (List Nat)) (rs : List (List α))
+    (h : LhsInputsOK 0 pmin pmax perms rs) (hne : pmin ≠ []) :
+    lhs 0 pmin pmax perms rs = .error .zeroSamples := by
+  have hlen := h.length_eq
+  unfold lhs
+  simp only [broadcast_eq pmax pmin.length hlen, hlen, ne_eq, not_true_eq_false, if_false, h.no_empty_range,
+    Bool.false_eq_true]
+  rw [if_pos ⟨trivial, by simpa using hne⟩]
+
+example : lhs 2 [(0 : Rat), 1] [5] [[1, 0], [0, 1]] [[1 / 2, 0], [0, 1 / 4]]
+    = .ok [[15 / 4, 0], [1, 7 / 2]] := by decide +kernel
+example : lhs 2 [(0 : Rat), 1] [1, 1] [] [] = .error .pmaxLePmin := by decide +kernel
 
 end field
 
